@@ -71,8 +71,11 @@ theorem rel_step (S : Solver V X W A O Q Y) (hstart : ∀ o f0, (S.start o f0).c
       have hv' : ValidOp gi.a.s op := by rw [hst]; exact hv
       have hh' : OpInHorizon gi.nt op := by rw [hnt]; exact hh
       obtain ⟨b, hb, hb'⟩ := stepApi_of_valid S.L gi.nt gi.a op hstarted hv' hh'
-      refine ⟨by simp only [objStep, specStep, hgi, hsg, hdead, hb, Bool.false_eq_true, if_false],
-        ?_, ?_, ?_⟩
+      have hstate : SpecGen.state S { sg' with ops := sg'.ops ++ [op] } = step S.L gi.a.s op := by
+        show run S.L (S.start sg'.o sg'.f0) (sg'.ops ++ [op]) = _
+        rw [run_append, hst]; rfl
+      refine ⟨by simp only [objStep, specStep, hgi, hsg, hdead, hb, Bool.false_eq_true, if_false,
+        hstate], ?_, ?_, ?_⟩
       · simp only [objStep, specStep, hgi, hsg, hdead, hb, Bool.false_eq_true, if_false, hc]
       · simp only [objStep, specStep, hgi, hsg, hdead, hb, Bool.false_eq_true, if_false, hsl]
       · intro g'
@@ -82,8 +85,7 @@ theorem rel_step (S : Solver V X W A O Q Y) (hstart : ∀ o f0, (S.start o f0).c
             { sg' with ops := sg'.ops ++ [op] }, ?_, ?_, hnt, hdead, ?_, hb'⟩
           · simp only [objStep, hgi, hdead, hb, Bool.false_eq_true, if_false, upd_same]
           · simp only [specStep, hsg, upd_same]
-          · show step S.L gi.a.s op = run S.L (S.start sg'.o sg'.f0) (sg'.ops ++ [op])
-            rw [run_append, hst]; rfl
+          · exact hstate.symm
         · simp only [objStep, specStep, hgi, hsg, hdead, hb, Bool.false_eq_true, if_false,
             upd_ne _ _ h]
           exact hg g'
